@@ -1,1 +1,296 @@
-/-! # C19 — property theorems (stub) -/
+import Okane.Lemmas.Print
+/-!
+# C19 — formatted postings are laid out in aligned columns
+
+The property's numbers (4, 2, 48, 52, 3, 50, 54) are literals here; the model takes its constants from
+`Okane.Params` (extracted from `core/src/syntax/display.rs` on every run), so a changed constant breaks these proofs.
+
+All theorems hold for every context `cx` (display width function, number printer), every account, every amount
+expression.  Hypotheses about the width function say only what unicode-width guarantees for ASCII:
+`NumOK cx` (numbers are printed with one-byte, one-column characters; `std_numOK` proves it for the real number
+printer and the real width table) and `SymOK cx.w` (`( ) - + * /` and the blank take one column).
+-/
+namespace Okane.Print
+open Okane
+
+/-! ## the posting line, decomposed -/
+
+theorem spaces_snoc (n : Nat) : spaces n ++ [' '] = spaces (n + 1) := by
+  simp [spaces, List.replicate_succ']
+
+/-- **C19_gap** — the posting line is: four blanks, clear mark, account, a run of `gapWidth` blanks, and then the amount
+(or the `=` of a balance-only posting); the run has at least 2 blanks whenever something follows the account. -/
+theorem C19_gap (cx : Ctx) (p : Posting) :
+    postingHead cx p
+      = spaces 4 ++ clearMark p.clear ++ p.account.toList ++ spaces (gapWidth cx p) ++ afterGap cx p
+    ∧ ((p.amount.isSome ∨ p.balance.isSome) → 2 ≤ gapWidth cx p) := by
+  constructor
+  · unfold postingHead amountPart balancePart gapWidth afterGap
+    cases ha : p.amount with
+    | some a => simp [Params.postingIndent, amountPad, balancePart, ha]
+    | none =>
+      cases hb : p.balance with
+      | none => simp [Params.postingIndent]
+      | some b =>
+        have h3 : 3 ≤ balancePadding cx p b := by
+          simp only [balancePadding, ha, Option.isSome_none, Bool.false_eq_true, ↓reduceIte]
+          exact getColumn_ge _ _ _
+        have e : padLeft (balancePadding cx p b) [' ', '='] = spaces (balancePadding cx p b - 1) ++ ['='] := by
+          have : balancePadding cx p b - 1 = (balancePadding cx p b - 2) + 1 := by omega
+          rw [this, ← spaces_snoc]
+          simp [padLeft]
+        simp [Params.postingIndent, e]
+  · intro h
+    unfold gapWidth
+    cases ha : p.amount with
+    | some a =>
+      simp only [amountPad]
+      exact getColumn_ge _ _ _
+    | none =>
+      cases hb : p.balance with
+      | none => simp [ha, hb] at h
+      | some b =>
+        have h3 : 3 ≤ balancePadding cx p b := by
+          simp only [balancePadding, ha, Option.isSome_none, Bool.false_eq_true, ↓reduceIte]
+          exact getColumn_ge _ _ _
+        show 2 ≤ balancePadding cx p b - 1
+        omega
+
+/-- the posting line with an amount: everything up to the numeric part, then the rest -/
+theorem postingHead_amount (cx : Ctx) (p : Posting) (a : PostingAmount) (ha : p.amount = some a) :
+    postingHead cx p
+      = headUpToNumber cx p a ++ afterNumeric cx a.amount ++ printLot cx a.lot ++ printCost cx a.cost ++ balancePart cx p := by
+  rw [(C19_gap cx p).1]
+  simp [gapWidth, afterGap, ha, headUpToNumber, ← numeric_append_after cx a.amount]
+
+theorem accountWidth_eq (cx : Ctx) (p : Posting) :
+    accountWidth cx p = strWidth cx.w (clearMark p.clear ++ p.account.toList) := by
+  simp [accountWidth, strWidth_append, Nat.add_comm]
+
+/-! ## C19_column -/
+
+/-- **C19_column** — when `w(clear mark ++ account) + numeric width + 2 < 48`, the blanks before the amount bring the end
+of the numeric part to column 52: `4 + w(clear ++ account) + blanks + numeric width = 52`. -/
+theorem C19_column (cx : Ctx) (hnum : NumOK cx) (hsym : SymOK cx.w) (p : Posting) (a : PostingAmount)
+    (hshort : strWidth cx.w (clearMark p.clear ++ p.account.toList) + (numericPart cx a.amount).length + 2 < 48) :
+    4 + strWidth cx.w (clearMark p.clear ++ p.account.toList) + amountPad cx p a + (numericPart cx a.amount).length = 52 := by
+  rw [numericPart_length cx hnum hsym] at hshort ⊢
+  rw [← accountWidth_eq] at hshort ⊢
+  have := getColumn_short (colsize := 48) (left := accountWidth cx p + (fmtVExpr cx a.amount).2.absolute) (padding := 2)
+    (by omega)
+  simp only [amountPad, Params.amountColumn, Params.amountPadding]
+  omega
+
+/-- **C19_column**, on the printed line: the line is `headUpToNumber ++ …`, and the display width of `headUpToNumber`
+(indent, clear mark, account, blanks, numeric part) is 52 — the numeric part ends at display column 52. -/
+theorem C19_column_display (cx : Ctx) (hnum : NumOK cx) (hsym : SymOK cx.w) (p : Posting) (a : PostingAmount)
+    (ha : p.amount = some a)
+    (hshort : strWidth cx.w (clearMark p.clear ++ p.account.toList) + (numericPart cx a.amount).length + 2 < 48) :
+    postingHead cx p
+      = headUpToNumber cx p a ++ (afterNumeric cx a.amount ++ printLot cx a.lot ++ printCost cx a.cost ++ balancePart cx p)
+    ∧ strWidth cx.w (headUpToNumber cx p a) = 52 := by
+  constructor
+  · rw [postingHead_amount cx p a ha]; simp
+  · have hsp : cx.w ' ' = 1 := hsym ' ' (by simp)
+    have h := C19_column cx hnum hsym p a hshort
+    simp only [headUpToNumber, strWidth_append, strWidth_spaces cx.w hsp,
+      (numericPart_ascii cx hnum hsym a.amount).strWidth] at h ⊢
+    omega
+
+/-- the fallback branch: when the account is too long for the column, exactly 2 blanks separate it from the amount -/
+theorem C19_fallback (cx : Ctx) (hnum : NumOK cx) (hsym : SymOK cx.w) (p : Posting) (a : PostingAmount)
+    (hlong : ¬ strWidth cx.w (clearMark p.clear ++ p.account.toList) + (numericPart cx a.amount).length + 2 < 48) :
+    amountPad cx p a = 2 := by
+  rw [numericPart_length cx hnum hsym, ← accountWidth_eq] at hlong
+  simp only [amountPad, Params.amountColumn, Params.amountPadding]
+  exact getColumn_long hlong
+
+/-! ## C19_balance -/
+
+/-- the alignment never exceeds the length of the printed expression -/
+theorem alignment_le_length (cx : Ctx) (hnum : NumOK cx) (hsym : SymOK cx.w) (v : VExpr) :
+    (fmtVExpr cx v).2.absolute ≤ (fmtVExpr cx v).1.length :=
+  alignment_le_length' cx hnum hsym v
+
+/-- `width_cjk(balance_str) - alignment` does not underflow (the Rust subtraction is on `usize`), and it is the display
+width of what follows the numeric part -/
+theorem trailing_no_underflow (cx : Ctx) (hnum : NumOK cx) (hsym : SymOK cx.w) (b : VExpr) :
+    (fmtVExpr cx b).2.absolute ≤ strWidth cx.w (fmtVExpr cx b).1
+    ∧ trailing cx b = strWidth cx.w (afterNumeric cx b) := by
+  have := strWidth_fmt cx hnum hsym b
+  constructor
+  · omega
+  · unfold trailing; omega
+
+/-- the posting line with a balance: everything before the `=`, then `= balance` -/
+theorem postingHead_balance (cx : Ctx) (p : Posting) (b : VExpr) (hb : p.balance = some b) :
+    postingHead cx p = beforeEq cx p ++ '=' :: ' ' :: printVExpr cx b := by
+  rw [(C19_gap cx p).1]
+  cases ha : p.amount with
+  | some a => simp [gapWidth, afterGap, beforeEq, ha, hb, balancePart, balancePadding, padLeft]
+  | none => simp [gapWidth, afterGap, beforeEq, ha, hb]
+
+/-- **C19_balance** — a balance-only posting on a short account (`w(clear ++ account) + 3 < 50 + t`, `t` the display width
+of what follows the number in the balance, e.g. ` USD`): the text before its `=` is `53 + t` columns wide, i.e. the `=`
+stands in column `54 + t` = 52 (end of a number) + `t` + one blank + 1. -/
+theorem C19_balance (cx : Ctx) (hnum : NumOK cx) (hsym : SymOK cx.w) (p : Posting) (b : VExpr)
+    (ha : p.amount = none) (hb : p.balance = some b)
+    (hshort : strWidth cx.w (clearMark p.clear ++ p.account.toList) + 3 < 50 + strWidth cx.w (afterNumeric cx b)) :
+    postingHead cx p = beforeEq cx p ++ '=' :: ' ' :: printVExpr cx b
+    ∧ strWidth cx.w (beforeEq cx p) = 53 + strWidth cx.w (afterNumeric cx b) := by
+  refine ⟨postingHead_balance cx p b hb, ?_⟩
+  have hsp : cx.w ' ' = 1 := hsym ' ' (by simp)
+  have ht := (trailing_no_underflow cx hnum hsym b).2
+  rw [← accountWidth_eq] at hshort
+  have hcol := getColumn_short (colsize := 50 + trailing cx b) (left := accountWidth cx p) (padding := 3) (by omega)
+  have hge := getColumn_ge (50 + trailing cx b) (accountWidth cx p) 3
+  simp only [beforeEq, ha, gapWidth, hb, balancePadding, Option.isSome_none, Bool.false_eq_true, ↓reduceIte,
+    Params.balanceColumn, Params.balancePadding, strWidth_append, strWidth_spaces cx.w hsp]
+  rw [← accountWidth_eq] at *
+  have hacc := accountWidth_eq cx p
+  simp only [strWidth_append] at hacc
+  omega
+
+/-- **C19_balance** (second half) — "its `=` falls where it would after an amount in that commodity": a posting `q` on the
+same account with an aligned amount (no lot, no cost) followed by an assertion, whose amount is followed by text of the
+same width `t` (the same commodity), has its `=` in the same column as the balance-only posting `p`. -/
+theorem C19_balance_same_column (cx : Ctx) (hnum : NumOK cx) (hsym : SymOK cx.w) (p q : Posting) (b : VExpr)
+    (a : PostingAmount)
+    (hpa : p.amount = none) (hpb : p.balance = some b)
+    (hqa : q.amount = some a) (hlot : a.lot = {}) (hcost : a.cost = none)
+    (hacc : q.account = p.account) (hclear : q.clear = p.clear)
+    (hsame : strWidth cx.w (afterNumeric cx a.amount) = strWidth cx.w (afterNumeric cx b))
+    (hshort : strWidth cx.w (clearMark p.clear ++ p.account.toList) + (numericPart cx a.amount).length + 2 < 48) :
+    strWidth cx.w (beforeEq cx q) = strWidth cx.w (beforeEq cx p) := by
+  have hsp : cx.w ' ' = 1 := hsym ' ' (by simp)
+  have hp := (C19_balance cx hnum hsym p b hpa hpb (by omega)).2
+  have hq := C19_column cx hnum hsym q a (by rw [hacc, hclear]; exact hshort)
+  rw [hp]
+  simp only [beforeEq, hqa, hlot, hcost, printLot, printCost, strWidth_append, strWidth_spaces cx.w hsp,
+    List.append_nil, strWidth]
+  rw [strWidth_fmt cx hnum hsym a.amount, hsame]
+  rw [numericPart_length cx hnum hsym] at hq
+  simp only [strWidth_append] at hq
+  omega
+
+/-! ## C19_indent -/
+
+theorem metaLine_indent (m : Metadata) :
+    ∃ c rest, metaLine 4 m = ' ' :: ' ' :: ' ' :: ' ' :: c :: rest ∧ c ≠ ' ' :=
+  ⟨';', ' ' :: printMetadata m, by simp [metaLine], by decide⟩
+
+theorem postingHead_indent (cx : Ctx) (p : Posting) (hacc : AccountOK p) :
+    ∃ c rest, postingHead cx p = ' ' :: ' ' :: ' ' :: ' ' :: c :: rest ∧ c ≠ ' ' := by
+  obtain ⟨c, cs, hc, hne⟩ := hacc
+  rw [(C19_gap cx p).1]
+  cases p.clear with
+  | uncleared => exact ⟨c, cs ++ spaces (gapWidth cx p) ++ afterGap cx p, by simp [clearMark, hc], hne⟩
+  | cleared =>
+    exact ⟨'*', ' ' :: p.account.toList ++ spaces (gapWidth cx p) ++ afterGap cx p, by simp [clearMark], by decide⟩
+  | pending =>
+    exact ⟨'!', ' ' :: p.account.toList ++ spaces (gapWidth cx p) ++ afterGap cx p, by simp [clearMark], by decide⟩
+
+/-- **C19_indent** — every posting line and every metadata line a transaction prints (every line body after the header)
+starts with exactly four blanks. -/
+theorem C19_indent (cx : Ctx) (t : Transaction) (hacc : ∀ p ∈ t.posts, AccountOK p) :
+    ∀ l ∈ (txnLines cx t).tail, ∃ c rest, l = ' ' :: ' ' :: ' ' :: ' ' :: c :: rest ∧ c ≠ ' ' := by
+  intro l hl
+  simp only [txnLines, List.tail_cons, List.mem_append, List.mem_map, List.mem_flatMap] at hl
+  rcases hl with ⟨m, _, rfl⟩ | ⟨p, hp, hl⟩
+  · exact metaLine_indent m
+  · simp only [postingLines, List.mem_cons, List.mem_map] at hl
+    rcases hl with rfl | ⟨m, _, rfl⟩
+    · exact postingHead_indent cx p (hacc p hp)
+    · exact metaLine_indent m
+
+/-- **C19_indent**, on the printed text: when no printed field holds a line feed, the lines of the printed transaction
+are the line bodies, so every line after the first starts with exactly four blanks. -/
+theorem C19_indent_text (cx : Ctx) (t : Transaction) (hacc : ∀ p ∈ t.posts, AccountOK p)
+    (hnl : ∀ l ∈ txnLines cx t, '\n' ∉ l) :
+    ∀ l ∈ (linesOf (printEntryG cx (.txn t))).tail, ∃ c rest, l = ' ' :: ' ' :: ' ' :: ' ' :: c :: rest ∧ c ≠ ' ' := by
+  have : linesOf (printEntryG cx (.txn t)) = txnLines cx t := by
+    simp only [printEntryG, entryLines]
+    exact linesOf_unlines _ hnl
+  rw [this]
+  exact C19_indent cx t hacc
+
+/-! ## C19_blank -/
+
+theorem lineWrap_ne_nil (pre content : List Char) (hpre : pre ≠ []) : ∀ l ∈ lineWrap pre content, l ≠ [] := by
+  intro l hl
+  simp only [lineWrap, List.mem_map] at hl
+  obtain ⟨x, _, rfl⟩ := hl
+  cases pre with
+  | nil => exact absurd rfl hpre
+  | cons c cs => simp
+
+/-- no entry kind ever prints an empty line -/
+theorem entryLines_ne_nil (cx : Ctx) (e : Entry) : ∀ l ∈ entryLines cx e, l ≠ [] := by
+  intro l hl
+  cases e with
+  | txn t =>
+    simp only [entryLines, txnLines, List.mem_cons, List.mem_append, List.mem_map, List.mem_flatMap] at hl
+    rcases hl with rfl | ⟨m, _, rfl⟩ | ⟨p, _, hl⟩
+    · simp [txnHeader, fmtDate]
+    · simp [metaLine, Params.txnMetaIndent]
+    · simp only [postingLines, List.mem_cons, List.mem_map] at hl
+      rcases hl with rfl | ⟨m, _, rfl⟩
+      · simp [postingHead, Params.postingIndent]
+      · simp [metaLine, Params.postMetaIndent]
+  | comment s => exact lineWrap_ne_nil _ _ (by simp) l hl
+  | applyTag k v =>
+    simp only [entryLines, List.mem_singleton] at hl
+    subst hl; simp
+  | endApplyTag =>
+    simp only [entryLines, List.mem_singleton] at hl
+    subst hl; simp
+  | «include» p =>
+    simp only [entryLines, List.mem_singleton] at hl
+    subst hl; simp
+  | account n ds =>
+    simp only [entryLines, List.mem_cons, List.mem_flatMap] at hl
+    rcases hl with rfl | ⟨d, _, hl⟩
+    · simp
+    · cases d with
+      | comment s => exact lineWrap_ne_nil _ _ (by simp [Params.detailCommentPrefix]) l hl
+      | note s => exact lineWrap_ne_nil _ _ (by simp [Params.detailNotePrefix]) l hl
+      | alias s =>
+        simp only [accountDetailLines, List.mem_singleton] at hl
+        subst hl; simp [Params.detailAliasPrefix]
+  | commodity n ds =>
+    simp only [entryLines, List.mem_cons, List.mem_flatMap] at hl
+    rcases hl with rfl | ⟨d, _, hl⟩
+    · simp
+    · cases d with
+      | comment s => exact lineWrap_ne_nil _ _ (by simp [Params.cdetailCommentPrefix]) l hl
+      | note s => exact lineWrap_ne_nil _ _ (by simp [Params.cdetailNotePrefix]) l hl
+      | alias s =>
+        simp only [commodityDetailLines, List.mem_singleton] at hl
+        subst hl; simp [Params.cdetailAliasPrefix]
+      | format v c =>
+        simp only [commodityDetailLines, List.mem_singleton] at hl
+        subst hl; simp [Params.cdetailFormatPrefix]
+
+theorem linesOf_format (cx : Ctx) (es : List Entry) (hnl : ∀ e ∈ es, ∀ l ∈ entryLines cx e, '\n' ∉ l) :
+    linesOf (formatEntriesG cx es) = es.flatMap (fun e => entryLines cx e ++ [[]]) := by
+  induction es with
+  | nil => simp [formatEntriesG, linesOf, linesAux]
+  | cons e es ih =>
+    have ih' := ih (fun x hx => hnl x (List.mem_cons_of_mem _ hx))
+    have h1 : formatEntriesG cx (e :: es) = unlines (entryLines cx e ++ [[]]) ++ formatEntriesG cx es := by
+      simp [formatEntriesG, printEntryG, unlines]
+    rw [h1, linesOf_unlines_append, ih']
+    · simp
+    · intro l hl
+      rcases List.mem_append.mp hl with h | h
+      · exact hnl e List.mem_cons_self l h
+      · simp at h; subst h; simp
+
+/-- **C19_blank** — the formatted text consists, entry by entry, of the entry's lines (none of them empty) followed by
+exactly one empty line: entries are separated by exactly one empty line. -/
+theorem C19_blank (cx : Ctx) (es : List Entry) (hnl : ∀ e ∈ es, ∀ l ∈ entryLines cx e, '\n' ∉ l) :
+    linesOf (formatEntriesG cx es) = es.flatMap (fun e => entryLines cx e ++ [[]])
+    ∧ ∀ e ∈ es, ∀ l ∈ entryLines cx e, l ≠ [] :=
+  ⟨linesOf_format cx es hnl, fun e _ => entryLines_ne_nil cx e⟩
+
+end Okane.Print
